@@ -40,6 +40,13 @@ int64_t carquet_column_read_batch(
     if (max_values < 0) {
         return -1;
     }
+
+    /* BYTE_ARRAY values handed out by the previous call are only guaranteed
+     * until the next call: release the page data they pointed into */
+    for (int32_t i = 0; i < reader->num_retired_pages; i++) {
+        free(reader->retired_page_data[i]);
+    }
+    reader->num_retired_pages = 0;
     if (max_values == 0) {
         /* Load page if needed, but don't read any values */
         if (reader->values_remaining > 0 && !reader->page_loaded) {
